@@ -10,7 +10,7 @@ import z3
 
 from .. import stubs
 from ..harness import Check, Enc, Obligation, all_eq, cells, symlike
-from ..jx2smt import sym_array
+from ..jx2smt import NonFinite, sym_array
 
 TECH = ("jaxprs of AlgebraicSigmoid's forward/inverse/log-det-Jacobians (and jax.grad of them), of MultivariateNormalDegenerate's constructors + log_prob + sample "
         "(eigh as a contract stub, or exact for concrete-penalty x symbolic-scale operands) and of GaussianCopula.log_prob (ndtri re-bound to an uninterpreted stub) "
@@ -364,6 +364,27 @@ def mvnd_obligations(chk):
         return [var > 0], z3.And(d <= tol, d >= -tol)
     obs.append(Obligation("MVND: from_penalty uses a supplied rank as given (penalty with an eigenvalue below the tolerance; log-pdet derived from the top `rank` eigenvalues)", [e_s], g_small,
                           signature="mvnd:supplied-rank", expand_logs=True, timeout_s=120))
+    # --- rank 0 supplied as a plain Python int (zero penalty: flat prior on the whole space): the density is the constant 1
+    K0 = np.zeros((2, 2), dtype=np.float32)
+    var0 = z3.Real("var_zero")
+    x0, mu0 = sym_array("x_zero", (2,)), sym_array("mu_zero", (2,))
+    for nm0, fn0 in (("from_penalty(var, zero penalty, rank=0)", lambda v_, x_, m_: MVND.from_penalty(m_, v_, jnp.asarray(K0), rank=0).log_prob(x_)),
+                     ("MVND(loc, zero precision, rank=0)", lambda v_, x_, m_: MVND(m_, jnp.asarray(K0), rank=0).log_prob(x_) + 0 * v_)):
+        e_0 = chk.note_enc(Enc(f"MVND[zeros(2x2)].{nm0}", fn0, (1.3, jnp.zeros(2) + 0.2, jnp.zeros(2)), (sc(var0), x0, mu0), domain={"var_zero": (0.2, 5.0)}, ext_real=True))
+
+        def g_zero(V):
+            d = cells(V.out)[0]
+            if isinstance(d, NonFinite):          # extended reals: the log-density came out as -inf / nan
+                return [var0 > 0], z3.BoolVal(False)
+            tol = z3.RealVal("1/10000")
+            return [var0 > 0], z3.And(d <= tol, d >= -tol)
+
+        def replay_zero(ob, model, rng, fn0=fn0):
+            got = float(np.asarray(fn0(1.3, jnp.asarray([0.2, -0.4]), jnp.zeros(2))))
+            return dict(reproduced=not abs(got) <= 1e-4, inputs=dict(var=1.3, x=[0.2, -0.4], loc=[0.0, 0.0], rank=0), observed=dict(log_prob=repr(got), expected=0.0),
+                        note="rank-0 precision: the range space is {0}, the density on it is 1")
+        obs.append(Obligation(f"MVND {nm0} with the rank given as a Python int: log-density is 0 everywhere (0-dimensional range space, log-pdet 0)", [e_0], g_zero,
+                              signature="mvnd:rank0:" + nm0.split("(")[0], replay=replay_zero, timeout_s=60))
     # --- a non-default tolerance governs density AND sampler alike
     K2 = np.diag([2.0, 1e-4]).astype(np.float32)
     vt = z3.Real("var_tol")
